@@ -147,7 +147,8 @@ OPNMIDI_EXPORT int opn2_getBank(OPN2_MIDIPlayer *device, const OPN2_BankId *idp,
         return -1;
 
     OPN2_BankId id = *idp;
-    if(id.lsb > 127 || id.msb > 127 || id.percussive > 1)
+    // Percussion sets use the whole LSB byte: 0..127 are the drum kits, 128..255 the XG SFX kits of a bank file
+    if((id.lsb > 127 && !id.percussive) || id.msb > 127 || id.percussive > 1)
         return -1;
     size_t idnumber = ((id.msb << 8) | id.lsb | (id.percussive ? size_t(Synth::PercussionTag) : 0));
 
@@ -194,7 +195,7 @@ OPNMIDI_EXPORT int opn2_getBankId(OPN2_MIDIPlayer *device, const OPN2_Bank *bank
     Synth::BankMap::iterator it = Synth::BankMap::iterator::from_ptrs(bank->pointer);
     Synth::BankMap::key_type idnumber = it->first;
     id->msb = (idnumber >> 8) & 127;
-    id->lsb = idnumber & 127;
+    id->lsb = idnumber & 255; // bit 7: XG SFX kits among the percussion sets (never set in a melodic key)
     id->percussive = (idnumber & Synth::PercussionTag) ? 1 : 0;
     return 0;
 }
